@@ -549,7 +549,7 @@ func TestVerifC36(t *testing.T) {
 	r.Assume("Order of Disband against the sender's SendBan and against a group's Ban is not asserted (repository unit tests pin SendBan first; the group path keeps the legacy Ban-then-Disband order); both are permitted, path agreement is still required, occurrences are counted as literal_deviation.*.")
 	r.Assume("Person sends whose id cannot be decoded while NormalizePersonChannel=false are outside the domain (every entry adapter sets the flag for person channels); they are driven and only counted.")
 
-	worlds := r.N(2600, 30000)
+	worlds := r.N(8000, 90000)
 	frozen := time.Unix(1_700_000_000, 0)
 	far := []time.Time{time.Now().Add(6 * time.Hour), time.Now().Add(7 * time.Hour)}
 	var batchCalls, batchReads, perSendReads int64
